@@ -221,7 +221,7 @@ class Impl(object):
             self.objs.append(v)
             self.live.append(True)
             return ['ok', len(self.objs) - 1]
-        if k in ('rmvar', 'addcmeta', 'q_def', 'q_const', 'q_cmeta', 'q_annot', 'q_value'):
+        if k in ('rmvar', 'addcmeta', 'q_def', 'q_const', 'q_cmeta', 'q_annot', 'q_value', 'setinit'):
             if not (0 <= op[1] < len(self.objs)) or not self.live[op[1]]:
                 return ['err', 9]
         if k == 'transfer':
@@ -229,6 +229,9 @@ class Impl(object):
                 return ['err', 9]
         if k in ('addeq', 'rmeq') and not self.eq_alive(op[1]):
             return ['err', 9]
+        if k == 'setinit':
+            self.objs[op[1]].initial_value = None if op[2] is None else float(Fraction(op[2]))
+            return ['ok']
         if k == 'rmvar' and not self.rmvar_ok(op[1]):
             return ['err', 9]
         if k == 'rmvar':
@@ -362,6 +365,8 @@ def encode_op(op):
         return [6, op[1], op[2]]
     if k == 'triple':
         return [7, op[1], op[2], op[3]]
+    if k == 'setinit':
+        return [8, op[1], [] if op[2] is None else [Fraction(op[2])]]
     simple = {'q_eqs': 10, 'q_states': 12, 'q_graph': 13, 'q_ngraph': 14, 'q_vars': 15, 'q_free': 16, 'q_derivs': 18,
               'q_derived': 19}
     if k in simple:
@@ -460,7 +465,7 @@ PROFILES = {
              ('q_hascmeta', 1), ('q_cmeta', 1), ('q_annot', 1)],
     'annot': [('addeq', 4), ('rmeq', 2), ('rmvar', 12), ('addvar', 14), ('addcmeta', 14), ('transfer', 12), ('triple', 12),
               ('query', 2), ('q_bycmeta', 8), ('q_byrdf', 8), ('q_hascmeta', 4), ('q_cmeta', 4), ('q_annot', 4)],
-    'value': [('addeq', 14), ('rmeq', 4), ('rmvar', 2), ('addvar', 2), ('query', 20), ('q_def', 6), ('q_const', 14),
+    'value': [('addeq', 14), ('rmeq', 4), ('rmvar', 2), ('addvar', 2), ('setinit', 8), ('query', 18), ('q_def', 4), ('q_const', 10),
               ('q_value', 34), ('q_eqsfor', 4)],
     'query': [('addeq', 14), ('rmeq', 3), ('rmvar', 1), ('addvar', 1), ('query', 20), ('q_def', 8), ('q_const', 10),
               ('q_eqsfor', 43)],
@@ -617,6 +622,8 @@ def gen_case(seed, profile='edit'):
             ops.append(['q_annot', rng.randrange(nvars)])
         elif k == 'q_value':
             ops.append(['q_value', rng.randrange(nvars)])
+        elif k == 'setinit':
+            ops.append(['setinit', rng.randrange(nbase), rng.choice(['1', '-2', '0.5', '4', '0'])])
     # always end with the full set of queries
     for qn in queries:
         ops.append([qn])
